@@ -10,7 +10,10 @@ import (
 	"io"
 	"net/http"
 	"net/http/httptest"
+	"os"
+	"path/filepath"
 	"strings"
+	"sync"
 	"time"
 
 	"github.com/IrineSistiana/mosdns/v5/coremain"
@@ -51,6 +54,72 @@ type storeChain03 struct {
 	model []string // outside in; nil: not replayed on the model
 	names []string // names worth asking: sources and targets of the chain's redirect rules
 	close []func()
+	caches []*swapCache03
+}
+
+// swapCache03 is the cache plugin of a chain as the sequence sees it: the real *cache.Cache behind a pointer that the
+// harness replaces when it "restarts" the plugin (Close writes dump_file, NewCache with the same arguments loads it).
+type swapCache03 struct {
+	mu   sync.Mutex
+	c    *cache.Cache
+	args cache.Args
+}
+
+func (s *swapCache03) cur() *cache.Cache {
+	s.mu.Lock()
+	defer s.mu.Unlock()
+	return s.c
+}
+
+func (s *swapCache03) Exec(ctx context.Context, qCtx *query_context.Context, next sequence.ChainWalker) error {
+	return s.cur().Exec(ctx, qCtx, next)
+}
+
+// reload: what the entries of the cache go through between two lives of the process (mode "restart": dump_file written
+// by Close, read by NewCache) or when an operator moves them with the plugin's API (mode "api": GET /dump, then
+// POST /load_dump into the same cache, "api-flush": with GET /flush in between). Returns a description of what failed.
+func (s *swapCache03) reload(mode string) string {
+	old := s.cur()
+	if mode == "restart" {
+		if s.args.DumpFile == "" {
+			return ""
+		}
+		old.Close()
+		a := s.args
+		n := cache.NewCache(&a, cache.Opts{})
+		s.mu.Lock()
+		s.c = n
+		s.mu.Unlock()
+		return ""
+	}
+	api := old.Api()
+	rec := httptest.NewRecorder()
+	api.ServeHTTP(rec, httptest.NewRequest(http.MethodGet, "/dump", nil))
+	if rec.Code != 200 {
+		return fmt.Sprintf("GET /dump: status %d", rec.Code)
+	}
+	dump := rec.Body.Bytes()
+	if mode == "api-flush" {
+		api.ServeHTTP(httptest.NewRecorder(), httptest.NewRequest(http.MethodGet, "/flush", nil))
+	}
+	rec = httptest.NewRecorder()
+	api.ServeHTTP(rec, httptest.NewRequest(http.MethodPost, "/load_dump", bytes.NewReader(dump)))
+	if rec.Code != 200 {
+		return fmt.Sprintf("POST /load_dump: status %d %s", rec.Code, rec.Body.String())
+	}
+	return ""
+}
+
+var dumpDir03 = struct {
+	once sync.Once
+	dir  string
+	n    int
+}{}
+
+func dumpFile03() string {
+	dumpDir03.once.Do(func() { dumpDir03.dir, _ = os.MkdirTemp("", "verif-c03-dump") })
+	dumpDir03.n++
+	return filepath.Join(dumpDir03.dir, fmt.Sprintf("cache%d.dump", dumpDir03.n))
 }
 
 func buildStore03(r *Run) (*storeChain03, error) {
@@ -130,8 +199,16 @@ func buildStore03(r *Run) (*storeChain03, error) {
 			if r.Rng.Intn(3) == 0 {
 				lazy = 3600
 			}
-			c := cache.NewCache(&cache.Args{Size: 1024, LazyCacheTTL: lazy}, cache.Opts{})
-			ch.close = append(ch.close, func() { c.Close() })
+			args := cache.Args{Size: 1024, LazyCacheTTL: lazy, DumpInterval: 3600, DumpFile: dumpFile03()}
+			a := args
+			c := &swapCache03{c: cache.NewCache(&a, cache.Opts{}), args: args}
+			ch.close = append(ch.close, func() {
+				c.cur().Close()
+				if args.DumpFile != "" {
+					os.Remove(args.DumpFile)
+				}
+			})
+			ch.caches = append(ch.caches, c)
 			plugins[tag] = c
 			d += fmt.Sprintf("(lazy=%v)", lazy > 0)
 			if ch.model != nil {
@@ -243,7 +320,27 @@ func storeChain03Run(r *Run, i int) {
 	}
 	var history, ops []string
 	modelOK := ch.model != nil
-	for k, nqs := 0, 2+r.Rng.Intn(4); k < nqs; k++ {
+	// a third of the histories: between two queries every cache of the chain is dumped and loaded again (restart with
+	// dump_file, or GET /dump + POST /load_dump); the entries are the same afterwards, so nothing changes for the model
+	nqs, reloadAt, reloadMode := 2+r.Rng.Intn(4), -1, ""
+	if r.Rng.Intn(3) == 0 {
+		nqs += 1 + r.Rng.Intn(3)
+		reloadAt = 2 + r.Rng.Intn(nqs-2)
+		if r.Rng.Intn(3) == 0 {
+			reloadAt = 1 + r.Rng.Intn(nqs-1)
+		}
+		reloadMode = []string{"restart", "restart", "api", "api-flush"}[r.Rng.Intn(4)]
+	}
+	for k := 0; k < nqs; k++ {
+		if k == reloadAt {
+			for ci, c := range ch.caches {
+				if e := c.reload(reloadMode); e != "" {
+					r.Note(fmt.Sprintf("store chain: reload (%s) of cache %d failed: %s", reloadMode, ci, e))
+				}
+			}
+			history = append(history, "every cache of the chain dumped and loaded again ("+reloadMode+")")
+			r.Count("store:reload:" + reloadMode)
+		}
 		q := base
 		q.id = r.U16()
 		q.name = pool[r.Rng.Intn(len(pool))]
